@@ -5,6 +5,30 @@ ROOT = os.path.dirname(os.path.dirname(os.path.abspath(__file__)))
 
 # id -> (technique, level text, level note, design_ref)
 CLAIMED = {
+ "C01": ("proptest-generated programs + generated schedules run by a deterministic scheduler over the cfg-guarded sync shim; exhaustive linearizability (WGL) search and self-describing (unique power-of-two) increment sets",
+         "Exploration over schedules: 2-3 real threads run real library code one atomic step at a time in a generated order (random walk, PCT, window; injected spurious CAS failures); every history is checked for linearizability and against the subset rules of the statement. Samples interleavings, does not enumerate them.",
+         "Trusted: the scheduler and the sync shim (executions are sequentially consistent interleavings of the hooked operations).", "§3, §4 C01"),
+ "C02": ("proptest-generated observe/flush/collect programs + generated schedules (deterministic scheduler); consistent-cut set oracle via unique power-of-two observations; happens-before (vector clock) monitor over the reported memory orderings",
+         "Exploration over schedules plus a dynamic happens-before analysis of each explored execution: every snapshot must be one consistent cut, and every swap of the collector must be ordered by happens-before (already at the count hand-off gate) with all other accesses to the location. The HB monitor certifies the synchronisation pattern of explored executions; it does not enumerate weak-memory reorderings.",
+         "Trusted: scheduler, shim, and the vector-clock model of release/acquire (C++11 release sequences).", "§3, §4 C02"),
+ "C03": ("proptest-generated long observe/flush/collect histories + generated schedules incl. isolation schedules and single-worker sequential histories (deterministic scheduler); growth / conservation / batch-atomicity set oracle; stuck detection for termination",
+         "Exploration over schedules and histories: snapshots ordered in real time must describe growing sets, the quiescent snapshot all observations; a collect that cannot return once everything in flight has finished is a deterministic 'stuck' / 'starved' verdict. Liveness is reduced to these finite checks.",
+         "Trusted: scheduler, shim, the futile-spin rule (a repeated failed CAS on an unwritten location cannot succeed).", "§3, §4 C03"),
+ "C10": ("proptest-generated vector programs + generated schedules (deterministic scheduler) and single-thread histories; exhaustive linearizability search against the map model of appendix C",
+         "Exploration over schedules and sequential histories of get-or-create / update / remove / reset / collect on overlapping (boundary-shifted) tuples. A collection is judged as one atomic read of the key set plus one linearizable read per exposed child (updates through handles are lock-free, so a multi-child snapshot is not claimed to be atomic).",
+         "Trusted: scheduler, shim, the map model.", "§3, §4 C10"),
+ "C11": ("proptest-generated gauge programs + generated schedules (deterministic scheduler); exhaustive linearizability search; signed-sum check on set-free programs",
+         "Exploration over schedules of set/inc/dec/add/sub/get on a float or integer gauge with pre-emption between the load and the compare-exchange and injected spurious CAS failures.",
+         "Trusted: scheduler and shim; values are exactly representable.", "§3, §4 C11"),
+ "C16": ("proptest-generated API scenarios executed by one source compiled against both feature configurations; differential oracle (byte-identical dumps)",
+         "Exploration: generated scenarios run in the protobuf-backed build (in-process) and in a --no-default-features child process; gathered structure, text encodings and call outcomes must be identical.",
+         "Trusted: the executor uses only API common to both data models; a build that disagrees with itself is reported as nondeterministic, not as a violation.", "§4 C16"),
+ "C19": ("grammar-generated macro declarations (programs) compiled in batches against the working tree with generated drivers; backing-vector oracle with leaf-unique update amounts; byte-level shrinking by rebuild",
+         "Exploration over programs: declarations from a bounded grammar (<= 4 labels x 4 values) are compiled and run; every accessor path must address exactly its leaf's child. Case counts are two orders of magnitude lower than elsewhere because each batch costs a compiler run.",
+         "Trusted: the code emitter of the harness (driver and expectation are generated from the same declaration record).", "§4 C19"),
+ "C20": ("complete enumeration of the 108 macro arm x trailing-comma variants (generated wrapper file) x proptest-generated run-time inputs; explicit-constructor equivalence oracle",
+         "Exhaustive over macro arms, sampled over inputs: every arm is driven in every case; descriptor, buckets, target registry, handle identity and refusal are compared with the explicit calls.",
+         "Trusted: the arm table generator (gen/gen_c20_arms.py); only valid constructor arguments are generated.", "§4 C20"),
  "C04": ("proptest-generated families + independent text-format 0.0.4 parser round trip; append/concat metamorphic relations; libFuzzer in the thorough tier",
          "Exploration: generated metric families (adversarial help/label strings, every f64 class, all four printable types, custom and gathered) are encoded and read back by a parser written from the format description; the parsed record sequence must equal the one computed from the input. Samples the input space.",
          "Trusted: the reference parser (Appendix B of DESIGN.md) and the neutral family records read through the public getters.", "§4 C04"),
